@@ -1,281 +1,163 @@
-(* StreamReader.readline() and the line calls, for text whose only line-break
-   character is "\n" (the guard of the open finding C18-line-boundaries). *)
+(* SpooledStringIO.readline(length) over the code-point read path: chunks are
+   read until one contains "\n"; what follows it is handed back to the reader. *)
 From Coq Require Import ZifyBool.
 From Boltons Require Import Lib.Prelude Spec.C18_Spec Model.C18_Model
-  Proofs.C18_Lines Proofs.C18_Bytes Proofs.C18_Mfr Proofs.C18_Utf8 Proofs.C18_Reader.
+  Proofs.C18_Lines Proofs.C18_Bytes Proofs.C18_Mfr Proofs.C18_Utf8 Proofs.C18_Reader Proofs.C18_String.
 
-Definition plain (l : list N) : Prop := Forall (fun x => odd_break x = false) l.
-
-Lemma plain_brk x : odd_break x = false -> is_ubrk x = N.eqb x 10 /\ is_bbrk x = N.eqb x 10 /\ N.eqb x 13 = false.
+(* ---- ends_nl / take_line ------------------------------------------------------- *)
+Lemma ends_nl_cons (x y : N) t : ends_nl (x :: y :: t) = ends_nl (y :: t).
 Proof.
-  unfold odd_break, is_ubrk, is_bbrk. intro H.
-  destruct (N.eqb x 10) eqn:E10.
-  - apply N.eqb_eq in E10. subst x. auto.
-  - cbn [negb] in H. rewrite andb_true_r in H. cbn [orb] in *.
-    destruct (N.eqb x 13) eqn:E13; [discriminate|]. auto.
-Qed.
-
-(* splitlines = lines when "\n" is the only break character around *)
-Lemma gsplit_plain brk l :
-  Forall (fun x => brk x = N.eqb x 10 /\ N.eqb x 13 = false) l -> gsplit brk l = lines l.
-Proof.
-  induction 1 as [|x r [Hb H13] _ IH]; [reflexivity|].
-  cbn [gsplit lines]. rewrite H13, IH, Hb. cbn [andb]. reflexivity.
-Qed.
-
-Lemma gsplit_u_plain l : plain l -> gsplit is_ubrk l = lines l.
-Proof. intro P. apply gsplit_plain. eapply Forall_impl; [|exact P]. intros x H. apply plain_brk in H. tauto. Qed.
-Lemma gsplit_b_plain l : plain l -> gsplit is_bbrk l = lines l.
-Proof. intro P. apply gsplit_plain. eapply Forall_impl; [|exact P]. intros x H. apply plain_brk in H. tauto. Qed.
-
-(* ---- ends_with ----------------------------------------------------------------- *)
-Lemma ends_with_cons p (x y : N) t : ends_with p (x :: y :: t) = ends_with p (y :: t).
-Proof.
-  unfold ends_with. cbn [rev]. destruct (rev t ++ [y]) eqn:E.
+  unfold ends_nl. cbn [rev]. destruct (rev t ++ [y]) eqn:E.
   - destruct (rev t); discriminate.
   - reflexivity.
 Qed.
 
-Lemma ends_with_ext p q l : Forall (fun x => p x = q x) l -> ends_with p l = ends_with q l.
-Proof.
-  induction 1 as [|x t H _ IH]; [reflexivity|].
-  destruct t as [|y t]; [unfold ends_with; cbn; exact H|]. now rewrite !ends_with_cons.
-Qed.
-
-Lemma ends_with_none p l : Forall (fun x => p x = false) l -> ends_with p l = false.
-Proof.
-  induction 1 as [|x t H _ IH]; [reflexivity|].
-  destruct t as [|y t]; [unfold ends_with; cbn; exact H|]. now rewrite ends_with_cons.
-Qed.
-
-Definition ends10 := ends_with (fun x => N.eqb x 10).
-
-(* ---- take_line against a longer text ----------------------------------------- *)
-Lemma take_line_stable l r : ends10 (take_line l) = true -> take_line (l ++ r) = take_line l.
+Lemma take_line_stable l r : ends_nl (take_line l) = true -> take_line (l ++ r) = take_line l.
 Proof.
   induction l as [|x t IH]; intro H; [discriminate|].
   cbn [app take_line] in *. destruct (N.eqb x 10) eqn:E; [reflexivity|].
   f_equal. apply IH. destruct (take_line t) as [|y u] eqn:Et.
-  - unfold ends10, ends_with in H. cbn in H. congruence.
-  - unfold ends10 in *. now rewrite ends_with_cons in H.
+  - unfold ends_nl in H. cbn in H. congruence.
+  - now rewrite ends_nl_cons in H.
 Qed.
 
-Lemma take_line_proper l : skipn (length (take_line l)) l <> [] -> ends10 (take_line l) = true.
+Lemma no_nl_of_take_line l : ends_nl (take_line l) = false -> ~ In 10%N l.
 Proof.
-  induction l as [|x t IH]; intro H; [now cbn in H|].
-  cbn [take_line] in *. destruct (N.eqb x 10) eqn:E.
-  - unfold ends10, ends_with. cbn. exact E.
-  - cbn [length skipn] in H. specialize (IH H).
-    destruct (take_line t) as [|y u] eqn:Et; [discriminate|].
-    unfold ends10 in *. now rewrite ends_with_cons.
+  induction l as [|x t IH]; intros H []; cbn [take_line] in H.
+  - subst x. cbn in H. unfold ends_nl in H. cbn in H. discriminate.
+  - destruct (N.eqb x 10) eqn:E; [unfold ends_nl in H; cbn in H; congruence|].
+    destruct (take_line t) as [|y u] eqn:Et.
+    + apply (proj1 (take_line_nil_iff _)) in Et. subst t. contradiction.
+    + rewrite ends_nl_cons in H. now apply IH.
 Qed.
 
-Lemma lines_nil_inv l : lines l = [] -> l = [].
-Proof. intro H. apply (f_equal (@concat N)) in H. now rewrite concat_lines in H. Qed.
-
-Lemma lines_single l l0 : lines l = [l0] -> l0 = l /\ take_line l = l.
+Lemma take_line_no_nl l r : ~ In 10%N l -> take_line (l ++ r) = l ++ take_line r.
 Proof.
-  intro H. assert (E : l0 = l).
-  { apply (f_equal (@concat N)) in H. rewrite concat_lines in H. cbn in H. now rewrite app_nil_r in H. }
-  split; [exact E|]. subst l0.
-  destruct l as [|x t]; [reflexivity|].
-  rewrite lines_unfold in H by discriminate. now injection H.
-Qed.
-
-Lemma lines_many l l0 l1 more r : lines l = l0 :: l1 :: more ->
-  take_line (l ++ r) = l0 /\ l = l0 ++ concat (l1 :: more).
-Proof.
-  intro H. assert (NE : l <> []) by (intro Z; subst; discriminate).
-  rewrite (lines_unfold _ NE) in H. injection H as H0 H1.
-  assert (P : skipn (length (take_line l)) l <> []).
-  { intro Z. rewrite Z in H1. discriminate. }
-  split.
-  - rewrite take_line_stable; [exact H0|]. now apply take_line_proper.
-  - rewrite <- H0, <- H1, concat_lines. apply take_line_prefix.
-Qed.
-
-(* every line but the last is complete *)
-Lemma complete_cons x ln : N.eqb x 10 = false -> complete_line ln -> complete_line (x :: ln).
-Proof.
-  intros E [b [-> Hb]]. exists (x :: b). split; [reflexivity|].
-  intros [Z|Z]; [|now apply Hb]. subst x. discriminate.
-Qed.
-
-Lemma lines_complete l : Forall complete_line (removelast (lines l)).
-Proof.
-  induction l as [|x r IH]; [constructor|].
-  cbn [lines]. destruct (N.eqb x 10) eqn:E.
-  - destruct (lines r) as [|ln more] eqn:El; [constructor|].
-    change (removelast ([x] :: ln :: more)) with ([x] :: removelast (ln :: more)).
-    constructor; [|exact IH]. apply N.eqb_eq in E. subst x. exists []. split; [reflexivity|intros []].
-  - destruct (lines r) as [|ln more] eqn:El; [constructor|].
-    destruct more as [|m more']; [constructor|].
-    change (removelast ((x :: ln) :: m :: more')) with ((x :: ln) :: removelast (m :: more')).
-    change (removelast (ln :: m :: more')) with (ln :: removelast (m :: more')) in IH.
-    inversion IH; subst. constructor; [|assumption]. now apply complete_cons.
-Qed.
-
-Lemma take_line_complete l r : complete_line l -> take_line (l ++ r) = l.
-Proof.
-  intros [b [-> Hb]]. induction b as [|x b IH]; [reflexivity|].
+  induction l as [|x t IH]; intro H; [reflexivity|].
   cbn [app take_line]. destruct (N.eqb x 10) eqn:E.
-  - apply N.eqb_eq in E. subst x. exfalso. apply Hb. now left.
-  - f_equal. apply IH. intro Z. apply Hb. now right.
+  - apply N.eqb_eq in E. subst x. exfalso. apply H. now left.
+  - f_equal. apply IH. intro Z. apply H. now right.
 Qed.
 
-(* the cached lines: the last one gets the pending characters appended *)
-Lemma concat_cached (X : list (list N)) chars : X <> [] ->
-  concat (removelast X ++ [last X [] ++ chars]) = concat X ++ chars.
+Lemma ss_read_lines_none s n : rd_lines (ef_rd (ss_buf (fst (ss_read s n)))) = None.
 Proof.
-  intro NE. rewrite (app_removelast_last [] NE) at 3.
-  rewrite !concat_app. cbn. now rewrite !app_nil_r, app_assoc.
-Qed.
-
-Lemma removelast_snoc_length {A} (X : list A) y : X <> [] -> length (removelast X ++ [y]) = length X.
-Proof.
-  intro NE. rewrite (app_removelast_last y NE) at 2. now rewrite !app_length.
-Qed.
-
-Lemma Forall_firstn' {A} (Q : A -> Prop) n l : Forall Q l -> Forall Q (firstn n l).
-Proof.
-  intro H. rewrite <- (firstn_skipn n l) in H. apply Forall_app in H. tauto.
+  unfold ss_read, rd_read.
+  destruct (rd_loop _ _ _ _ _ _ _) as [[[st bb] cb] ok].
+  destruct (match n with None => n | Some _ => n end); reflexivity.
 Qed.
 
 Section Readline.
   Variable C : list N.
   Hypothesis V : Forall uvalid C.
-  Hypothesis P : plain C.
 
-  Lemma rl_loop_spec k0 : forall fuel e line readsize,
-    RI C (k0 + length line) e ->
-    skipn k0 C = line ++ skipn (k0 + length line) C ->
-    1 <= readsize ->
-    length C - (k0 + length line) + 1 <= fuel ->
-    snd (rl_loop fuel e line readsize) = take_line (skipn k0 C) /\
-    RI C (k0 + length (snd (rl_loop fuel e line readsize))) (fst (rl_loop fuel e line readsize)).
+  (* handing characters back to the reader *)
+  Lemma push_back_RI s k back :
+    RI C (k + length back) (ss_buf s) -> rd_lines (ef_rd (ss_buf s)) = None ->
+    skipn k C = back ++ skipn (k + length back) C ->
+    RI C k (ss_buf (ss_push_back s back)) /\
+    ss_tell (ss_push_back s back) = ss_tell s - length back /\ same_cfg s (ss_push_back s back).
   Proof.
-    induction fuel as [|fuel IH]; intros e line readsize I Pfx Hr F; [lia|].
-    cbn [rl_loop].
-    pose proof (rd_read_spec C _ e (Some readsize) None V I (or_introl eq_refl)) as [R1 [R2 R3]].
-    destruct (rd_read e (Some readsize) None) as [e1 data0]. cbn [fst snd] in *.
-    assert (PT : plain (skipn k0 C)) by now apply Forall_skipn.
-    assert (Pd : plain data0) by (rewrite R1; apply Forall_firstn'; now apply Forall_skipn).
-    replace (nonempty data0 && ends_with (N.eqb 13) data0) with false.
-    2:{ rewrite ends_with_none; [now rewrite andb_false_r|].
-        eapply Forall_impl; [|exact Pd]. intros x H. apply plain_brk in H. rewrite N.eqb_sym. tauto. }
-    match goal with |- context [if readsize <? ?n then 2 * readsize else readsize] =>
-      set (rs' := if readsize <? n then 2 * readsize else readsize) end.
-    assert (Hr' : 1 <= rs') by (unfold rs'; destruct (readsize <? _); lia).
-    clearbody rs'.
-    (* the text from k0 on starts with line ++ data0 *)
-    assert (Kd : skipn (k0 + length line) C = data0 ++ skipn (k0 + length line + length data0) C).
-    { replace (skipn (k0 + length line + length data0) C) with (skipn (length data0) (skipn (k0 + length line) C))
-        by (now rewrite <- skipn_add).
-      set (T := skipn (k0 + length line) C) in *. rewrite R1, skipn_firstn_len.
-      symmetry. apply firstn_skipn. }
-    assert (Pfx' : skipn k0 C = (line ++ data0) ++ skipn (k0 + length (line ++ data0)) C).
-    { rewrite app_length, <- app_assoc.
-      replace (k0 + (length line + length data0)) with (k0 + length line + length data0) by lia.
-      rewrite <- Kd. exact Pfx. }
-    assert (I' : RI C (k0 + length (line ++ data0)) e1).
-    { rewrite app_length. replace (k0 + (length line + length data0)) with (k0 + length line + length data0) by lia. exact R2. }
-    assert (Pl : plain (line ++ data0)).
-    { rewrite Pfx' in PT. apply Forall_app in PT. tauto. }
-    rewrite (gsplit_u_plain _ Pl).
-    assert (Kc : k0 + length (line ++ data0) <= length C) by (destruct I' as [_ [K _]]; exact K).
-    destruct (lines (line ++ data0)) as [|l0 [|l1 more]] eqn:EL.
-    - (* no character at all: end of the data *)
-      apply lines_nil_inv in EL. apply app_eq_nil in EL as [-> Ed]. rewrite Ed in *. cbn [nonempty app fst snd length] in *.
-      rewrite Nat.add_0_r in *. split; [|exact I'].
-      symmetry. apply take_line_nil_iff.
-      destruct (skipn k0 C) as [|y t] eqn:Es; [reflexivity|].
-      destruct readsize; [lia|]. cbn in R1. discriminate.
-    - (* one line so far *)
-      apply lines_single in EL as [-> TL].
-      rewrite (ends_with_ext is_ubrk (fun x => N.eqb x 10)).
-      2:{ eapply Forall_impl; [|exact Pl]. intros x H. apply plain_brk in H. tauto. }
-      fold (ends10 (line ++ data0)).
-      destruct (ends10 (line ++ data0)) eqn:E10.
-      + cbn [fst snd]. split; [|exact I'].
-        rewrite Pfx'. rewrite take_line_stable; [now symmetry|]. now rewrite TL.
-      + destruct (nonempty data0) eqn:NE.
-        * assert (1 <= length data0) by (destruct data0; [discriminate|cbn; lia]).
-          apply IH; auto. rewrite app_length in *. lia.
-        * apply nonempty_false in NE. rewrite NE in *. rewrite app_nil_r in *. cbn [fst snd length] in *.
-          split; [|exact I'].
-          assert (Z : skipn (k0 + length line) C = []).
-          { destruct (skipn (k0 + length line) C) as [|y t] eqn:Es; [reflexivity|].
-            destruct readsize; [lia|]. cbn in R1. discriminate. }
-          rewrite Pfx, Z, app_nil_r. now symmetry.
-    - (* more than one line: the first is returned, the others are put back *)
-      destruct (lines_many _ _ _ _ (skipn (k0 + length (line ++ data0)) C) EL) as [T0 Sp].
-      rewrite <- Pfx' in T0.
-      assert (C0 : complete_line l0).
-      { pose proof (lines_complete (line ++ data0)) as LC. rewrite EL in LC.
-        change (removelast (l0 :: l1 :: more)) with (l0 :: removelast (l1 :: more)) in LC. now inversion LC. }
-      assert (L0 : length l0 + length (concat (l1 :: more)) = length (line ++ data0)).
-      { rewrite <- app_length. f_equal. now symmetry. }
-      destruct I' as [Ok [K [D [W [LO [R [Sk E]]]]]]].
-      unfold pending in Sk. rewrite R3 in Sk.
-      assert (Rest : skipn (k0 + length l0) C = concat (l1 :: more) ++ rd_chars (ef_rd e1) ++ R).
-      { rewrite skipn_add, Pfx'. rewrite Sp at 1. rewrite <- !app_assoc, skipn_app, skipn_all, Nat.sub_diag.
-        cbn [skipn app]. rewrite <- Sk. reflexivity. }
-      destruct more as [|m more']; cbn [fst snd].
-      + split; [now symmetry|].
-        unfold RI, lines_ok, pending. cbn [ef_rd ef_stream rd_ok rd_bytes rd_lines rd_chars].
-        repeat split; auto; try lia.
-        exists R. split; [|exact E]. rewrite Rest. cbn [concat]. now rewrite app_nil_r, <- app_assoc.
-      + split; [now symmetry|].
-        unfold RI, lines_ok, pending. cbn [ef_rd ef_stream rd_ok rd_bytes rd_lines rd_chars].
-        repeat split; auto; try lia.
-        * rewrite removelast_snoc_length by discriminate. cbn [length]. lia.
-        * rewrite removelast_last.
-          pose proof (lines_complete (line ++ data0)) as LC. rewrite EL in LC.
-          change (removelast (l0 :: l1 :: m :: more')) with (l0 :: removelast (l1 :: m :: more')) in LC.
-          now inversion LC.
-        * exists R. split; [|exact E]. rewrite Rest, concat_cached by discriminate. now rewrite <- app_assoc.
+    intros [Ok [K [D [W [LO [R [Sk E]]]]]]] Ln Pfx. unfold ss_push_back, ss_with.
+    cbn [ss_buf ss_tell]. split; [|split; [reflexivity|split; reflexivity]].
+    unfold RI, lines_ok, pending in *. cbn [ef_rd ef_stream rd_ok rd_bytes rd_lines rd_chars].
+    rewrite Ln in *. split; [exact Ok|]. split; [lia|]. split; [exact D|]. split; [exact W|]. split; [exact I|].
+    exists R. split; [|exact E]. rewrite Pfx, Sk. now rewrite app_assoc.
   Qed.
 
-  (* readline() *)
-  Lemma rd_readline_spec k e : RI C k e ->
-    snd (rd_readline e) = take_line (skipn k C) /\
-    RI C (k + length (snd (rd_readline e))) (fst (rd_readline e)).
+  Definition line_result (limit : option nat) (T : list N) : list N :=
+    match limit with None => take_line T | Some l => firstn l (take_line T) end.
+
+  Lemma ss_readline_loop_spec k0 t0 limit : forall fuel s line,
+    RI C (k0 + length line) (ss_buf s) ->
+    skipn k0 C = line ++ skipn (k0 + length line) C ->
+    ~ In 10%N line ->
+    match limit with Some l => length line <= l | None => True end ->
+    ss_tell s = t0 + length line ->
+    1 <= ss_chunk s ->
+    length C - (k0 + length line) + 1 <= fuel ->
+    snd (ss_readline_loop fuel s limit line) = line_result limit (skipn k0 C) /\
+    RI C (k0 + length (snd (ss_readline_loop fuel s limit line)))
+       (ss_buf (fst (ss_readline_loop fuel s limit line))) /\
+    ss_tell (fst (ss_readline_loop fuel s limit line)) = t0 + length (snd (ss_readline_loop fuel s limit line)) /\
+    same_cfg s (fst (ss_readline_loop fuel s limit line)).
   Proof.
-    intro I. unfold rd_readline.
-    destruct (rd_lines (ef_rd e)) as [[|l0 more]|] eqn:EL.
-    - destruct I as [_ [_ [_ [_ [LO _]]]]]. unfold lines_ok in LO. rewrite EL in LO. cbn in LO. lia.
-    - (* cached lines *)
-      destruct I as [Ok [K [D [W [LO [R [Sk E]]]]]]].
-      unfold lines_ok in LO. unfold pending in Sk. rewrite EL in LO, Sk. destruct LO as [L2 LC].
-      destruct more as [|l1 more]; [cbn in L2; lia|].
-      change (removelast (l0 :: l1 :: more)) with (l0 :: removelast (l1 :: more)) in LC.
-      inversion LC as [|? ? C0 LC']; subst.
-      cbn [concat] in Sk. rewrite <- app_assoc in Sk.
-      assert (Kl : k + length l0 <= length C).
-      { apply (f_equal (@length N)) in Sk. rewrite skipn_length, app_length in Sk. lia. }
-      assert (Rest : skipn (k + length l0) C = concat (l1 :: more) ++ R).
-      { rewrite skipn_add, Sk, skipn_app, skipn_all, Nat.sub_diag. reflexivity. }
-      destruct more as [|l2 more]; cbn [fst snd].
-      + split; [rewrite Sk; symmetry; now apply take_line_complete|].
-        unfold RI, lines_ok, pending. cbn [ef_rd ef_stream rd_ok rd_bytes rd_lines rd_chars].
-        repeat split; auto.
-        exists R. split; [|exact E]. rewrite Rest. cbn. now rewrite app_nil_r.
-      + split; [rewrite Sk; symmetry; now apply take_line_complete|].
-        unfold RI, lines_ok, pending. cbn [ef_rd ef_stream rd_ok rd_bytes rd_lines rd_chars].
-        repeat split; auto.
-        * cbn [length]. lia.
-        * exists R. split; [exact Rest|exact E].
-    - assert (K : k <= length C) by (destruct I as [_ [K _]]; exact K).
-      destruct (rl_loop_spec k (S (S (length (rest (ef_stream e)) + length (rd_chars (ef_rd e)) + length (rd_bytes (ef_rd e))))) e [] 72) as [A B].
-      + cbn [length]. now rewrite Nat.add_0_r.
-      + cbn [length app]. now rewrite Nat.add_0_r.
-      + lia.
-      + (* the fuel covers every character still to come *)
-        destruct I as [Ok [_ [D [W [LO [R [Sk E]]]]]]].
-        unfold pending in Sk. rewrite EL in Sk.
-        apply (f_equal (@length N)) in Sk. rewrite skipn_length, app_length in Sk.
-        pose proof (enc_length R) as LR. rewrite E, app_length in LR.
-        cbn [length]. rewrite Nat.add_0_r. lia.
-      + split; assumption.
+    induction fuel as [|fuel IH]; intros s line I Pfx Nl Lim Tl Ch F; [lia|].
+    cbn [ss_readline_loop].
+    assert (TL : take_line (skipn k0 C) = line ++ take_line (skipn (k0 + length line) C)).
+    { rewrite Pfx at 1. now apply take_line_no_nl. }
+    destruct (match limit with Some l => l <=? length line | None => false end) eqn:Q.
+    { (* the limit is reached *)
+      destruct limit as [l|]; [|discriminate]. cbn [fst snd line_result].
+      assert (length line = l) by lia. subst l.
+      split; [rewrite TL, firstn_app, Nat.sub_diag, firstn_all; cbn; now rewrite app_nil_r|].
+      split; [exact I|]. split; [exact Tl|apply same_cfg_refl]. }
+    set (n := match limit with None => ss_chunk s | Some l => Nat.min (ss_chunk s) (l - length line) end).
+    assert (Hn : 1 <= n) by (unfold n; destruct limit; lia).
+    pose proof (ss_read_spec C V s _ (Some n) I) as [R1 [R2 [R3 R4]]].
+    pose proof (ss_read_lines_none s (Some n)) as Ln.
+    destruct (ss_read s (Some n)) as [s1 chunk]. cbn [fst snd] in *.
+    set (k := k0 + length line) in *.
+    assert (Kd : skipn k C = chunk ++ skipn (k + length chunk) C).
+    { replace (skipn (k + length chunk) C) with (skipn (length chunk) (skipn k C)) by (now rewrite <- skipn_add).
+      rewrite R1, skipn_firstn_len. symmetry. apply firstn_skipn. }
+    assert (Lc : length chunk <= n) by (rewrite R1, firstn_length; lia).
+    destruct (nonempty chunk) eqn:NE.
+    2:{ (* end of the data *)
+      apply nonempty_false in NE. rewrite NE in *. cbn [length] in *. rewrite Nat.add_0_r in R2.
+      assert (Z : skipn k C = []).
+      { destruct (skipn k C) as [|y t] eqn:Es; [reflexivity|]. destruct n; [lia|]. cbn in R1. discriminate. }
+      rewrite Z in TL. cbn [take_line] in TL. rewrite app_nil_r in TL.
+      cbn [fst snd]. split.
+      - unfold line_result. rewrite TL. destruct limit as [l|]; [symmetry; apply firstn_all2; exact Lim|reflexivity].
+      - split; [exact R2|]. split; [lia|exact R4]. }
+    assert (Lp : 1 <= length chunk) by (destruct chunk; [discriminate|cbn; lia]).
+    assert (Pfx' : skipn k0 C = (line ++ chunk) ++ skipn (k0 + length (line ++ chunk)) C).
+    { rewrite app_length, <- app_assoc. replace (k0 + (length line + length chunk)) with (k + length chunk) by (unfold k; lia).
+      rewrite <- Kd. exact Pfx. }
+    destruct (ends_nl (take_line chunk)) eqn:En.
+    - (* the line ends inside this chunk *)
+      set (l := take_line chunk) in *. set (back := skipn (length l) chunk).
+      assert (Sp : chunk = l ++ back) by apply take_line_prefix.
+      assert (Ll : length chunk = length l + length back) by (rewrite Sp at 1; apply app_length).
+      assert (Tk : take_line (skipn k C) = l).
+      { rewrite Kd. now apply take_line_stable. }
+      destruct (push_back_RI s1 (k + length l) back) as [P1 [P2 P3]].
+      + replace (k + length l + length back) with (k + length chunk) by lia. exact R2.
+      + exact Ln.
+      + replace (k + length l + length back) with (k + length chunk) by lia.
+        rewrite skipn_add, Kd, Sp at 1. rewrite <- app_assoc, skipn_app, skipn_all, Nat.sub_diag. reflexivity.
+      + cbn [fst snd]. rewrite app_length.
+        split.
+        * unfold line_result. fold k in TL. rewrite TL, Tk.
+          destruct limit as [lm|]; [|reflexivity]. symmetry. apply firstn_all2. rewrite app_length. unfold n in Lc. lia.
+        * split; [replace (k0 + (length line + length l)) with (k + length l) by (unfold k; lia); exact P1|].
+          split; [lia|]. eapply same_cfg_trans; eassumption.
+    - (* no line end yet: go on *)
+      assert (Nc : ~ In 10%N chunk) by now apply no_nl_of_take_line.
+      destruct (IH s1 (line ++ chunk)) as [J1 [J2 [J3 J4]]].
+      + rewrite app_length. replace (k0 + (length line + length chunk)) with (k + length chunk) by (unfold k; lia). exact R2.
+      + exact Pfx'.
+      + intro Z. apply in_app_or in Z as [Z|Z]; auto.
+      + destruct limit as [lm|]; [|trivial]. rewrite app_length. unfold n in Lc. lia.
+      + rewrite app_length. lia.
+      + destruct R4 as [_ R4]. lia.
+      + assert (Kc : k + length chunk <= length C) by (destruct R2 as [_ [Kc _]]; exact Kc).
+        rewrite app_length. unfold k in *. lia.
+      + split; [exact J1|]. split; [exact J2|]. split; [exact J3|]. eapply same_cfg_trans; eassumption.
+  Qed.
+
+  (* readline(length) *)
+  Lemma ss_readline_spec s k lim : RI C k (ss_buf s) -> 1 <= ss_chunk s ->
+    snd (ss_readline s lim) = line_result lim (skipn k C) /\
+    RI C (k + length (snd (ss_readline s lim))) (ss_buf (fst (ss_readline s lim))) /\
+    ss_tell (fst (ss_readline s lim)) = ss_tell s + length (snd (ss_readline s lim)) /\
+    same_cfg s (fst (ss_readline s lim)).
+  Proof.
+    intros I Ch. unfold ss_readline.
+    assert (D : rf_data (ef_stream (ss_buf s)) = utf8_enc C) by (destruct I as [_ [_ [D _]]]; exact D).
+    pose proof (enc_length C) as EL. rewrite <- D in EL.
+    apply (ss_readline_loop_spec k (ss_tell s) lim); cbn [length app]; rewrite ?Nat.add_0_r; auto.
+    - destruct lim; [lia|trivial].
+    - lia.
   Qed.
 End Readline.
